@@ -400,6 +400,9 @@ def _div_setup(s, job):
         roots = None if job["rootsopt"] == 0 else [None if r < 0 else r for r in job["roots"]]
         if roots is not None and obj["kind"] == "grid":
             roots = [None if r is None else (r // obj["w"], r % obj["w"]) for r in roots]
+        if roots is not None and job.get("id", 0) % 2 and roots and roots[-1] is None:
+            while roots and roots[-1] is None:      # the same requirement written as a shorter list
+                roots.pop()
         job["_roots_obj"] = roots
     roots = job["_roots_obj"]
     if obj["kind"] == "grid":
@@ -480,7 +483,7 @@ def _sizes_arg(s, job, n):
     if kind == "const2":
         return 2
     if kind == "shared":
-        return s.int_var(1, n)
+        return s.int_var([1, -1, 0][job.get("id", 0) % 3], n)     # a lower bound below 1 is legal (sizes are >= 1 anyway)
     return [None if x < 0 else x for x in sizes]
 
 
